@@ -127,6 +127,37 @@ BUILT["C16"] = (
     "index_initial (private change-detection anchor) is not protected content; truthfulness only required under the statement's trigger.",
 )
 
+BUILT["C04"] = (
+    "exploration",
+    "exhaustive enumeration of header lines (field palettes x padding patterns x section kinds + special-form families) through read_header_line and lasio.read",
+    "All 6468 field combinations x 6 section kinds x every padding pattern with at most two non-default pads (plus the "
+    "all-padded line) - 9.6 million lines - and the complete special-form families (time values for all 24 hours with "
+    "dates and colon-bearing ~Parameter descriptions, no-period lines, '1000 lbf' units) must parse to exactly the four "
+    "stripped fields; thorough adds the full 5^6 pad product on a reduced palette; a second family goes through "
+    "lasio.read and compares the resulting items.",
+    "Field contents outside the palettes are not covered; preconditions are the statement's own (listed in the evidence assumptions).",
+)
+BUILT["C08"] = (
+    "exploration",
+    "exhaustive enumeration of all strings up to length 5 over a 17-symbol alphabet against an independent hand-written literal scanner, through the per-line parsing seam and through lasio.read",
+    "Every string of length <= 5 over digits, signs, marks, exponent letters, underscore, blank, letters and ':' '/' "
+    "(1.5 million per section kind) is parsed as the value of an item in ~Well and ~Parameter (length <= 4 in ~Well 1.2, "
+    "~Version, custom, ~Curves), every string of length <= 3 under X/API/UWI/api/Uwi through lasio.read, plus a trap list "
+    "(inf, nan, hex, overflow, 2^63 edges, non-ASCII digits, grouped digits): numbers exactly for plain finite decimal "
+    "literals with the right integer/float type, verbatim otherwise, API/UWI verbatim outside ~Parameter, ~Curves values verbatim.",
+    "The three-way classification treats '5.', '.5', '5,', ',5' as ambiguous (either outcome accepted).",
+)
+BUILT["C19"] = (
+    "exploration",
+    "exhaustive enumeration of junk lines (all strings up to length 3/4 over a 13-symbol alphabet + adversarial long lines) x every insertion site x flag on/off, singles and pairs",
+    "Every junk line of length <= 3 (thorough 4) plus long adversarial lines inserted at every line boundary of ~V, ~W, "
+    "~P and a custom section of three base files (incl. duplicated mnemonics and version 1.2), and all pairs of short "
+    "junk lines at all site pairs: with ignore_header_errors no exception, every genuine item present in order with "
+    "unchanged original mnemonic/unit/value/description, curve data bit-identical; without the flag either the same "
+    "result or LASHeaderError naming the junk line.",
+    "Junk cannot spell the steering mnemonics or start with '~' (statement's exclusion).",
+)
+
 PENDING_REASON = "check not built yet in this round (design in DESIGN.md section 3); nothing is claimed for it"
 
 
